@@ -111,6 +111,14 @@ def decodeChunks (pend : Bytes) : List Bytes → Option (List Bytes × Bytes)
     | none => none
     | some r => (decodeChunks r.2 rest).map (fun r2 => (r.1 :: r2.1, r2.2))
 
+/-- what the strict decoder may hold back: a proper prefix of a well-formed sequence -/
+def pendOk : Bytes → Bool
+  | [] => true
+  | [b0] => decide (2 ≤ seqLen b0)
+  | [b0, b1] => decide (3 ≤ seqLen b0) && secondOk b0 b1
+  | [b0, b1, b2] => decide (seqLen b0 = 4) && secondOk b0 b1 && isCont b2
+  | _ => false
+
 /-- a well-formed UTF-8 byte sequence for one code point (Unicode table 3-7) -/
 def wfChar (ch : Bytes) : Bool :=
   match ch with
